@@ -286,6 +286,17 @@ def run(chk):
                 continue
             if isinstance(v, _ast.Attribute) and v.attr == 'name':     # the name of an element is canonical by construction
                 continue
+            if isinstance(v, _ast.Constant) and v.value is None:      # no child: the store is not reached with it (tested)
+                continue
+            if isinstance(v, _ast.Subscript) and isinstance(v.slice, _ast.Constant) and v.slice.value == 'name' and \
+                    isinstance(v.value, _ast.Name):
+                # _find_name inlined: the 'name' entry of the reference find_child_reference returns
+                refs = [a2.value for a2 in _own(fi.node) if isinstance(a2, _ast.Assign) and
+                        any(isinstance(t, _ast.Name) and t.id == v.value.id for t in a2.targets)]
+                if refs and all((isinstance(r_, _ast.Call) and isinstance(r_.func, _ast.Attribute) and
+                                 r_.func.attr == 'find_child_reference') or
+                                (isinstance(r_, _ast.Constant) and r_.value is None) for r_ in refs):
+                    continue
             return False
         return True
 
